@@ -243,6 +243,15 @@ theorem resolve_eq_doc_partial (info : Nat → ProdInfo) (t p0 : Nat) (rest : Li
       rcases hacts with rfl | rfl <;> simp only [resolveOneDoc, hd]
     exact Prod.ext (h1.trans h2.symm) (hres.trans hres'.symm)
 
+/-- The hypotheses of `resolve_documented_shiftassoc_partial` and `resolve_eq_doc_partial` are
+satisfiable as well (same cell), and a cell of different levels needs no `hK1` at all. -/
+example :
+    let info : Nat → ProdInfo := fun p => ⟨1, p, true⟩
+    (resolveOne info [.reduce 2, .shift 13 [3, 3, 3]]).2 = true ∧
+      ((info 3).prec = (info 2).prec → (info 2).rightAssoc = true → [3, 3, 3] = [2]) ∧
+      resolveOne info [.reduce 2, .shift 13 [3, 3, 3]] = resolveOneDoc info [.reduce 2, .shift 13 [3, 3, 3]] := by
+  decide
+
 /-! ## What the cells of an expression rule decide -/
 
 /-- **Known finding K1, general form.** A cell "`b` incoming, `a` on the stack" of an expression
@@ -300,6 +309,14 @@ theorem single_item_decision (info : Nat → ProdInfo) (t a b : Nat)
       · subst hba
         cases hr : (info b).rightAssoc <;> simp [keepOf]
       · simp [hba, keepOf, heq]
+
+/-- Non-vacuity of `k1_decision` / `single_item_decision` (`@right(3)` against itself). -/
+example :
+    let info : Nat → ProdInfo := fun _ => ⟨2, 3, true⟩
+    (info 8).rule = (info 8).rule ∧ 0 < (info 8).prec ∧
+      srDecision info [.shift 13 (List.replicate (6 + 2) 8), .reduce 8] = some true ∧
+      srDecision info [.shift 13 [8], .reduce 8] = some false := by
+  decide
 
 /-! ## The operator-precedence theorem -/
 
@@ -376,6 +393,23 @@ theorem op_machine_k1 {Op Atom : Type} (table : Op → Nat × Bool) (prodOf : Op
   rw [← h']
   simp only [hinfo, forceLeft, decide_eq_true_eq, and_true]
   omega
+
+/-- The hypotheses of `op_machine_k1` are satisfiable: the calc table (operators 0 … 5, operator `o`
+is production `o`, eight contributing items per shift). -/
+example (a0 : Nat) (ws : List (Nat × Nat)) :
+    let table : Nat → Nat × Bool := fun o => if o ≤ 1 then (1, false) else if o ≤ 4 then (2, false) else (3, true)
+    let dec : Nat → Nat → Bool := fun a b => decide ((table b).1 ≤ (table a).1)
+    opParse dec a0 ws = climb (forceLeft table) a0 ws := by
+  intro table dec
+  let info : Nat → ProdInfo := fun p => ⟨2, (table p).1, (table p).2⟩
+  have hpos : ∀ o, 0 < (table o).1 := by
+    intro o
+    simp only [table]
+    repeat' split
+    all_goals decide
+  refine op_machine_k1 table id info 2 (fun _ => rfl) hpos (fun _ _ => 13) (fun _ _ => 6) dec ?_ a0 ws
+  intro a b
+  exact k1_decision info 13 a b 6 rfl (hpos a) (hpos b)
 
 /-- Non-vacuity of `op_machine_k1` and the visible consequence: with the calc table the machine
 driven by the real decisions groups `2 ^ 3 ^ 2` to the left, precedence climbing to the right. -/
